@@ -119,6 +119,7 @@ func gen(prop, tier string, r *Rng, out *bufio.Writer, st *Stats) {
 		genC14(w, r, tier)
 		genC14Long(w, r, tier)
 		genC14Zeros(w, r, tier)
+		genC14Moved(w, r, tier)
 	case "C15":
 		genC15(w, r, tier)
 	case "C16":
